@@ -66,7 +66,7 @@ type c13Obs struct {
 	DTLSAnswer  string   `json:"dtls_answerer"`
 }
 
-func c13API(t *testing.T, lite bool, role string, live bool, opusOnly bool) *API {
+func c13API(t *testing.T, lite bool, role string, live bool, opusOnly bool, mediaLevelFP ...bool) *API {
 	var media func(m *MediaEngine) error
 	if opusOnly {
 		media = func(m *MediaEngine) error {
@@ -79,6 +79,9 @@ func c13API(t *testing.T, lite bool, role string, live bool, opusOnly bool) *API
 
 	return vNewAPI(t, vAPIOpts{media: media, setting: func(s *SettingEngine) {
 		s.SetLite(lite)
+		if len(mediaLevelFP) > 0 && mediaLevelFP[0] {
+			s.SetSDPMediaLevelFingerprints(true)
+		}
 		switch role {
 		case "client":
 			_ = s.SetAnsweringDTLSRole(DTLSRoleClient)
@@ -112,8 +115,9 @@ func c13Exchange(t *testing.T, c *vkit.Check, cs c13Case, live bool) (obs c13Obs
 	if live {
 		obs.Mode = "live"
 	}
-	off := vNewPC(t, c13API(t, cs.OfferLite, "unset", live, false), nil)
-	ans := vNewPC(t, c13API(t, cs.AnswerLite, cs.AnsRole, live, cs.Layout == "video-first-rejected"), nil)
+	mfp := cs.Layout == "media-level-fingerprints"
+	off := vNewPC(t, c13API(t, cs.OfferLite, "unset", live, false, mfp), nil)
+	ans := vNewPC(t, c13API(t, cs.AnswerLite, cs.AnsRole, live, cs.Layout == "video-first-rejected", mfp), nil)
 	defer func() { _ = off.Close(); _ = ans.Close() }()
 
 	if cs.Layout == "video-first-rejected" {
@@ -311,7 +315,7 @@ func c13RunCase(t *testing.T, c *vkit.Check, cs c13Case) {
 func TestVerifC13(t *testing.T) {
 	c := vkit.New("C13", "exploration")
 	defer c.Finish(t)
-	c.Rule("case = (offerer ICE-lite, answerer ICE-lite, answerer SettingEngine.SetAnsweringDTLSRole {unset, client, server}, a=setup of the offer as delivered {actpass, active, passive, absent}) — the full 2x2x3x4 matrix in both tiers, each with the plain layout (data channel + audio) and with a video section first that the opus-only answerer rejects (so the answer's first section carries no a=setup); per case a pion offer (data channel + audio) with its a=setup lines rewritten, SetRemoteDescription -> CreateAnswer -> SetLocalDescription on the answerer, SetRemoteDescription(answer) on the offerer; run once without network (roles from ICETransport.Role() and the real DTLSTransport.role() fed with dtlsRoleFromSDP of the applied remote description) and, unless both agents are lite, once connected over loopback (roles read after DTLSTransport.Start took them). Non-trivial = a judged (mode, configuration)")
+	c.Rule("case = (offerer ICE-lite, answerer ICE-lite, answerer SettingEngine.SetAnsweringDTLSRole {unset, client, server}, a=setup of the offer as delivered {actpass, active, passive, absent}) — the full 2x2x3x4 matrix in both tiers, each with the plain layout (data channel + audio) and with a video section first that the opus-only answerer rejects (so the answer's first section carries no a=setup), and with both sides writing their fingerprints at media level (SetSDPMediaLevelFingerprints); per case a pion offer (data channel + audio) with its a=setup lines rewritten, SetRemoteDescription -> CreateAnswer -> SetLocalDescription on the answerer, SetRemoteDescription(answer) on the offerer; run once without network (roles from ICETransport.Role() and the real DTLSTransport.role() fed with dtlsRoleFromSDP of the applied remote description) and, unless both agents are lite, once connected over loopback (roles read after DTLSTransport.Start took them). Non-trivial = a judged (mode, configuration)")
 	c.Assume("the offerer is pion; it believes it offered actpass, so its DTLS role is judged against the answer's a=setup only; the explicit offer value is judged through the answer value it permits (RFC 4145: active->passive, passive->active)")
 	c.Assume("an absent a=setup in the offer is treated like actpass (either answer value is accepted)")
 	c.Assume("live runs need the loopback interface; two lite agents are not connected (neither sends checks)")
@@ -335,6 +339,9 @@ func TestVerifC13(t *testing.T) {
 				for _, s := range c13Setups {
 					cases = append(cases, c13Case{OfferLite: ol, AnswerLite: al, AnsRole: r, Setup: s})
 					cases = append(cases, c13Case{OfferLite: ol, AnswerLite: al, AnsRole: r, Setup: s, Layout: "video-first-rejected"})
+					// both sides write their fingerprints at media level (another layout of the session-level part of
+					// the descriptions, where a=ice-lite lives)
+					cases = append(cases, c13Case{OfferLite: ol, AnswerLite: al, AnsRole: r, Setup: s, Layout: "media-level-fingerprints"})
 				}
 			}
 		}
